@@ -1131,4 +1131,65 @@ theorem C05_obs_1d {α : Type} [Add α] [Sub α] [Mul α] [Div α] [Neg α] [Sca
   simp [ObsArg.view, List.getD_eq_getElem?_getD, hi]
 
 
+/-! ### `ReducedPopulationModel` (fixed parameters) around any population model: the return forms
+
+The hierarchical form splits the wrapped model's vector at the wrapped model's number of bottom-level entries and
+drops the fixed top-level entries; it exists and has `n_bottom + n_free` entries exactly for that offset; it is the
+bottom block followed by the filtered top block (what the separate form returns); any larger offset (e.g.
+`n_ids * n_dim` for a model with pooled / heterogeneous dimensions) is an `IndexError`. -/
+
+theorem C05_maskFree_defined_iff {β : Type} (mask : List Bool) (xs : List β) :
+    (maskFree mask xs).isSome ↔ mask.length = xs.length := by
+  induction mask generalizing xs with
+  | nil => cases xs <;> simp [maskFree]
+  | cons m ms ih =>
+    cases xs with
+    | nil => simp [maskFree]
+    | cons x xs => simp [maskFree, ih xs]
+
+theorem C05_maskFree_length {β : Type} (mask : List Bool) (xs r : List β)
+    (h : maskFree mask xs = some r) : r.length = nFree mask := by
+  induction mask generalizing xs r with
+  | nil => cases xs <;> simp_all [maskFree, nFree]
+  | cons m ms ih =>
+    cases xs with
+    | nil => simp [maskFree] at h
+    | cons x xs =>
+      simp only [maskFree, Option.map_eq_some_iff] at h
+      obtain ⟨r', hr', rfl⟩ := h
+      have := ih xs r' hr'
+      cases m <;> simp_all [nFree]
+
+/-- the hierarchical form of a model with fixed parameters exists exactly when the split offset leaves as many
+top-level entries as the mask has bits -/
+theorem C05_reduced_hier_defined_iff {β : Type} (o : Nat) (mask : List Bool) (v : List β) :
+    (reducedHier o mask v).isSome ↔ mask.length = v.length - o := by
+  simp [reducedHier, C05_maskFree_defined_iff]
+
+theorem C05_reduced_hier_length {β : Type} (nb : Nat) (mask : List Bool) (v : List β)
+    (hv : v.length = nb + mask.length) :
+    ∃ r, reducedHier nb mask v = some r ∧ r.length = nb + nFree mask := by
+  have hs : (maskFree mask (v.drop nb)).isSome := by
+    rw [C05_maskFree_defined_iff]; simp [hv]
+  obtain ⟨t, ht⟩ := Option.isSome_iff_exists.mp hs
+  refine ⟨v.take nb ++ t, by simp [reducedHier, ht], ?_⟩
+  have := C05_maskFree_length mask _ t ht
+  simp [this, hv]
+
+theorem C05_reduced_forms_agree {β : Type} (mask : List Bool) (bottom top : List β) :
+    reducedHier bottom.length mask (bottom ++ top) = (maskFree mask top).map (fun r => bottom ++ r) := by
+  simp [reducedHier]
+
+theorem C05_reduced_wrong_split {β : Type} (nb o : Nat) (mask : List Bool) (v : List β)
+    (hv : v.length = nb + mask.length) (ho : nb < o) (hm : mask ≠ []) :
+    reducedHier o mask v = none := by
+  have : ¬ (reducedHier o mask v).isSome := by
+    rw [C05_reduced_hier_defined_iff]
+    have : 0 < mask.length := List.length_pos_iff.mpr hm
+    omega
+  simpa using this
+
+example : reducedHier 2 [false, true, false] [1, 2, 3, 4, 5] = some [1, 2, 3, 5] := by decide
+example : reducedHier 3 [false, true, false] [1, 2, 3, 4, 5] = (none : Option (List Nat)) := by decide
+
 end ChiModel
